@@ -1,17 +1,15 @@
 #!/bin/sh
-# usage: tryrefac.sh <patch> : apply a behaviour-preserving patch to /repo, run ALL checks (quick, no self-test,
-# no evidence), print every alarm (each one is a false alarm), undo the patch.
-P="$1"
-cd /repo || exit 2
-git diff --quiet || { echo "/repo not clean"; exit 2; }
+# usage: [REPO=/some/copy] tryrefac.sh <patch> : apply a behaviour-preserving patch to the repository copy, run ALL
+# checks in one process (quick rules, no self-test, no evidence), print every alarm (each one is a false alarm), undo the patch.
+P="$1"; R="${REPO:-/repo}"
+cd "$R" || exit 2
+git diff --quiet || { echo "$R not clean"; exit 2; }
 git apply "$P" || { echo "PATCH DOES NOT APPLY"; exit 3; }
-T=$(mktemp -d /tmp/refac.XXXXXX)
-cd /verif
-for p in C01 C02 C03 C04 C05 C06 C07 C08 C09 C10 C11 C12 C13 C14 C15 C16 C17 C18 C19 C20; do echo $p; done | xargs -P 10 -I{} sh -c "FDCHECK_NO_EVIDENCE=1 ./bin/fdcheck -prop {} -noselftest > $T/{}.out 2>&1"
-n=0
-for p in C01 C02 C03 C04 C05 C06 C07 C08 C09 C10 C11 C12 C13 C14 C15 C16 C17 C18 C19 C20; do
-  if grep -a -q "^VIOLATION\|LOAD-FAILURE" $T/$p.out; then n=$((n+1)); echo "ALARM $p:"; grep -a "rule C\|LOAD-FAILURE" $T/$p.out | grep -v "^  rule" | grep -v KNOWN-FINDING | cut -c1-330 | head -6; fi
-done
-[ $n -eq 0 ] && echo "SILENT (all 20 checks pass)"
-rm -rf $T
-git -C /repo checkout -q -- . ; git -C /repo clean -fdq -- . 2>/dev/null; git -C /repo status --short | head -3
+out=$(cd /verif && ./bin/fdcheck -repo "$R" -all 2>&1)
+if echo "$out" | grep -a -q "^VIOLATION\|LOAD-FAILURE"; then
+  echo "$out" | grep -a "^=== \|: rule C\|LOAD-FAILURE\|^normal form" | grep -v "KNOWN-FINDING" | awk '/^=== /{h=$0; next} /^normal form/{next} {if(h!=""){print "ALARM " substr(h,5) ":"; h=""} print}' | cut -c1-330
+else
+  echo "SILENT (all 20 checks pass)"
+fi
+echo "$out" | grep -a "^normal form" | sort -u | head -4 | cut -c1-200
+git -C "$R" checkout -q -- . ; git -C "$R" clean -fdq -- . 2>/dev/null; git -C "$R" status --short | head -3
